@@ -65,7 +65,13 @@ class SymRandomState:
         return self.uniform(size=shape or None)
 
     def get_state(self):
-        return ("sym", self.key, self.stream)
+        return ("sym", self.key, self.stream, self.n)
+
+    def set_state(self, state):
+        # state of *this* stream object only (RNG.random hands out a new stream object on every access)
+        if not (isinstance(state, tuple) and state and state[0] == "sym"):
+            raise TypeError("set_state: not a state of a symbolic stream")
+        _, self.key, self.stream, self.n = state
 
 
 def make_rng_class():
